@@ -32,7 +32,9 @@ def texts():
     # character-level family (fourth round of seeds): CR / CRLF line ends, every short tail of line terminators and blanks after
     # the last token and before the first one, form feed / vertical tab / NUL / BOM / non-ASCII in the same places
     TAILS = ['', '\n', '\r\n', '\r', '\n\n', '\r\n\r\n', '\n\r\n', '\r\n\n', '\r\r', '\n\r', ' \r\n \r\n', '\t\r\n\t', '\n\n\n', '\r\n\r\n\r\n', '\f', '\v\n', '\x00', '\ufeff', '\u00a0\n', '\u2028', ' ', '\t']
-    BASES = ['{ a = 1; }', '1', '# header\n{ pkgs }:\npkgs.hello', '{\n  a = 1;\n\n  b = [\n    1\n  ];\n}', 'let\n  a = 1;\nin\na', '[ 1 2 ]', '"s"', "''\n  x\n''", 'x: x # c', '/* c */ 1']
+    BASES = ['{ a = 1; }', '1', '# header\n{ pkgs }:\npkgs.hello', '{\n  a = 1;\n\n  b = [\n    1\n  ];\n}', 'let\n  a = 1;\nin\na', '[ 1 2 ]', '"s"', "''\n  x\n''", 'x: x # c', '/* c */ 1',
+             # eighth round: constructs whose readers keep only some of the children (interpolated names of an inherit, empty containers with trivia)
+             '{ inherit (pkgs) ${a}; }', '{ inherit (pkgs) ${a} ${b}; x = 1; }', 'let inherit (pkgs) ${name}; in 1', '{ inherit ${a}; }', '{ inherit (p) "a"; }', '{ x = [ /* c */ ]; }', 'f { /* c */ }']
     for bse in BASES:
         for crlf in (False, True):
             b2 = bse.replace('\n', '\r\n') if crlf else bse
